@@ -290,7 +290,7 @@ impl<'a> Oracle<'a> {
                 ));
             }
         }
-        let absent = CommitId::new(vec![0xee; 10]);
+        let absent = CommitId::new(vec![0xee; self.ids[0].as_ref().unwrap().as_bytes().len()]);
         if index.has_id(&absent).block_on().map_err(|e| err_fail("has_id", view, e))? {
             return Err((format!("C18/has_id/{vk}"), format!("{view}: has_id(absent id) = true")));
         }
@@ -676,7 +676,7 @@ fn run_case(env: &Env, case: &Case, extra_views: bool) -> Result<CaseOutcome, Fa
     let mut out = CaseOutcome::default();
     let mut stats = ViewStats { queries: 0 };
 
-    let test_repo = TestRepo::init();
+    let test_repo = TestRepo::init_with_backend(testutils::TestRepoBackend::Simple);
     let mut ids: Vec<Option<CommitId>> = vec![None; model.n()];
     ids[0] = Some(test_repo.repo.store().root_commit_id().clone());
     let mut repo = test_repo.repo.clone();
@@ -1057,7 +1057,9 @@ fn main() {
         v
     } else {
         let mut v = enumerate_cases(4, 4, &[0, 6], 4, true);
-        v.extend(enumerate_cases(5, 4, &[0], 0, false).into_iter().filter(|c| c.parents.len() == 5));
+        // N = 5, <= 4 parents, all compositions, all concurrent pairs in both merge orders,
+        // 4 change patterns
+        v.extend(enumerate_cases(5, 4, &[0], 0, true).into_iter().filter(|c| c.parents.len() == 5));
         v
     };
 
@@ -1154,7 +1156,7 @@ fn main() {
         if ctx.quick() {
             json!("all DAGs n<=4 (<=4 parents) x all compositions x {sequential, every admissible concurrent pair} x change patterns (all for n<=3, 4 shapes for n=4), no prefix; + 6-commit base segment: all DAGs n<=3 x all plans x both merge orders x all patterns, and all DAGs n=4 x all plans x {all distinct, all equal}")
         } else {
-            json!("all DAGs n<=4 (<=4 parents) x all compositions x all concurrent pairs x both merge orders x all change patterns x {no prefix, 6-commit base segment}; + all DAGs n=5 (<=4 parents) x all compositions x all concurrent pairs x 4 change patterns, no prefix")
+            json!("all DAGs n<=4 (<=4 parents) x all compositions x all concurrent pairs x both merge orders x all change patterns x {no prefix, 6-commit base segment}; + all DAGs n=5 (<=4 parents) x all compositions x all concurrent pairs x both merge orders x 4 change patterns, no prefix")
         },
     );
     let cov = Coverage {
